@@ -21,6 +21,20 @@ Definition starts_with_underscore (name : string) : bool :=
 
 (** every variable with a shadowed one, unless ignored (default pattern ^_) or named `...`:
     (new declaration, shadowed declaration) *)
+Definition shadowing_report_with (ign : string -> bool) (s : st) : list (range * range) :=
+  flat_map (fun v =>
+    match v_shadowed v with
+    | Some sid =>
+        let name := t_name (v_tok v) in
+        if ign name || str_eqb name "..." then []
+        else match nth_error (vars s) (N.to_nat sid) with
+             | Some sv => [(t_range (v_tok v), t_range (v_tok sv))]
+             | None => []
+             end
+    | None => []
+    end) (vars s).
+
+(** the default configuration (ignore_pattern = "^_") *)
 Definition shadowing_report (s : st) : list (range * range) :=
   flat_map (fun v =>
     match v_shadowed v with
@@ -33,3 +47,6 @@ Definition shadowing_report (s : st) : list (range * range) :=
              end
     | None => []
     end) (vars s).
+
+Lemma shadowing_report_default s : shadowing_report s = shadowing_report_with starts_with_underscore s.
+Proof. reflexivity. Qed.
